@@ -125,6 +125,29 @@ def r1(model, rep, r, an):
 
 
 # ------------------------------------------------------------------------------------------------ R2/R3
+def src_loop(loop):
+    """the loop over the recorded sources in its spellings -> (name of the dict, {local name: descriptor})
+       for d in range(len(S)) [list(S.keys())[d] is read by special_factory]  |  for k in S / S.keys()  |  for k, v in S.items()"""
+    it = loop.iter
+    if isinstance(it, ast.Call) and ast.unparse(it.func) == "range" and len(it.args) == 1 and isinstance(it.args[0], ast.Call) and ast.unparse(it.args[0].func) == "len" \
+            and isinstance(it.args[0].args[0], ast.Name):
+        return it.args[0].args[0].id, {}
+    if isinstance(it, ast.Name) and isinstance(loop.target, ast.Name):
+        return it.id, {loop.target.id: SRC}
+    if isinstance(it, ast.Call) and isinstance(it.func, ast.Attribute) and isinstance(it.func.value, ast.Name) and not it.args:
+        S = it.func.value.id
+        if it.func.attr == "keys" and isinstance(loop.target, ast.Name):
+            return S, {loop.target.id: SRC}
+        if it.func.attr == "items" and isinstance(loop.target, ast.Tuple) and len(loop.target.elts) == 2 and all(isinstance(e, ast.Name) for e in loop.target.elts):
+            return S, {loop.target.elts[0].id: SRC, loop.target.elts[1].id: ("sub", ("name", S), SRC)}
+    return None
+
+
+def src_binder(loop, rd):
+    r = src_loop(loop)
+    return r[1] if r and r[1] else None
+
+
 def special_factory(srcdict):
     def special(n, rd):
         # list(sources.keys())[d] / list(sources)[d]
@@ -168,14 +191,13 @@ def r2_r3(model, rep, r, an):
     loops = [s for s in tail if isinstance(s, ast.For)]
     if len(loops) != 1:
         raise AnalysisError("solve: expected one subsystem update loop after the table is built")
-    it = loops[0].iter
-    srcdict = None
-    if isinstance(it, ast.Call) and ast.unparse(it.func) == "range" and isinstance(it.args[0], ast.Call) and ast.unparse(it.args[0].func) == "len":
-        srcdict = ast.unparse(it.args[0].args[0])
-    if srcdict is None:
+    sl_ = src_loop(loops[0])
+    if sl_ is None:
         raise AnalysisError("solve: subsystem loop does not range over the sources")
+    srcdict = sl_[0]
     ph = ploop.target.id
     rd = Reader(frame, special=special_factory(srcdict))
+    rd.binder = src_binder
     rd.run(tail)
     PH = ("name", ph)
     subrow = ("ROW", ("Component", "==", ("fmt", "Subsystem {}", SRC)))
@@ -377,10 +399,11 @@ def summary_rows(model, rep, r, an):
         raise AnalysisError("solve: row loop / table construction are not top-level statements of the phase loop")
     between = body[ri + 1:di[0]]
     subloop = [s_ for s_ in between if isinstance(s_, ast.For)]
-    if len(subloop) != 1 or not isinstance(subloop[0].target, ast.Name):
+    if len(subloop) != 1 or src_loop(subloop[0]) is None:
         raise AnalysisError("solve: subsystem summary loop not found")
     sl = subloop[0]
-    rd = Reader("df", special=special_factory(ast.unparse(sl.iter.args[0].args[0]) if isinstance(sl.iter, ast.Call) and sl.iter.args and isinstance(sl.iter.args[0], ast.Call) and sl.iter.args[0].args else "sources"))
+    rd = Reader("df", special=special_factory(src_loop(sl)[0]))
+    rd.binder = src_binder
     rd.env_loop(sl)
     rd.run(sl.body)
     tot = Reader("df")
@@ -418,7 +441,7 @@ def summary_rows(model, rep, r, an):
     rep.instance("R2", "system.System.solve layout of the Subsystem / total rows", "%s:%d" % (rel, sl.lineno), ok, "%d column lists" % len(chans))
     # single-subsystem clean-up only for fewer than two sources
     ok = True
-    srcname = ast.unparse(sl.iter.args[0].args[0]) if isinstance(sl.iter, ast.Call) and sl.iter.args and isinstance(sl.iter.args[0], ast.Call) and sl.iter.args[0].args else None
+    srcname = src_loop(sl)[0]
     drops = [x for x in ast.walk(ploop) if isinstance(x, ast.If) and any(isinstance(c, ast.Call) and isinstance(c.func, ast.Attribute) and c.func.attr == "drop" for c in ast.walk(x))]
     for d_ in drops:
         t = ast.unparse(d_.test).replace(" ", "")
